@@ -2,8 +2,10 @@
 
 Correspondence: (a) marker level — the real `OnsetValidator.validate_temporal_relations` on HedStrings,
 one per time point, against `Temporal.run`; (b) file level — `TabularInput.validate` on an events frame
-(equal-onset rows, Delay shifts) against `Temporal.timePoints` + `run`.  Direct oracle: a set-based
-reference of the property statement evaluated on the implementation's output.
+(equal-onset rows, Delay shifts) against `Temporal.timePoints` + `run`.  (c) group level — `DefValidator.validate_onset_offset` (directly
+and through `HedString.validate`) on generated well- and malformed temporal groups against
+`Temporal.validateOnsetOffset`.  Direct oracle: a set-based reference of the property statement evaluated on
+the implementation's output.
 """
 import itertools
 import json
@@ -16,6 +18,20 @@ THEOREMS = [
     "HedVerif.C10.case_insensitive",
     "HedVerif.C10.timePoints_strict",
     "HedVerif.C10.timePoints_content",
+    "HedVerif.C10.sortRows_stable",
+    "HedVerif.C10.timePoints_markers_order",
+    "HedVerif.C10.increasing_unique",
+    "HedVerif.C10.timePoints_spec",
+    "HedVerif.C10.permutation_invariant",
+    "HedVerif.C10.run_permutation_invariant",
+    "HedVerif.C10.timePoints_orig",
+    "HedVerif.C10.shape_ok_iff",
+    "HedVerif.C10.no_def_kind",
+    "HedVerif.C10.too_many_kind",
+    "HedVerif.C10.wrong_number_kind",
+    "HedVerif.C10.offset_inner_group_kind",
+    "HedVerif.C10.unknown_def_kind",
+    "HedVerif.C10.not_temporal_no_issue",
 ]
 BUDGET = {"quick": 900, "thorough": 3600}
 
@@ -24,6 +40,13 @@ NAMES = ["A", "a", "B", "C/1", "C/2", "c/1"]
 KINDS = ["onset", "offset", "inset"]
 KIND_TAG = {"onset": "Onset", "offset": "Offset", "inset": "Inset"}
 TEMPORAL_KINDS = {"ONSET_SAME_DEFS_ONE_ROW", "OFFSET_BEFORE_ONSET", "INSET_BEFORE_ONSET"}
+
+
+SHAPE_KINDS = {"ONSET_NO_DEF_TAG_FOUND", "ONSET_TOO_MANY_DEFS", "ONSET_WRONG_NUMBER_GROUPS",
+               "ONSET_TAG_OUTSIDE_OF_GROUP", "ONSET_DEF_UNMATCHED", "ONSET_PLACEHOLDER_WRONG"}
+DEF_TABLE = [["a", False], ["b", False], ["c", True]]          # folded name -> takes_value (DEFS above)
+DEF_EXTS = ["A", "a", "B", "C/1", "c/2", "A", "B", "C/1", "C", "A/2", "Zed"]
+DEF_CONTENT = {"a": "(Red)", "b": "(Blue)", "c": "(Label/{v})"}
 
 
 def install_kind_recorder():
@@ -223,6 +246,153 @@ def check_file(ctx, rows, model, schema, dd):
         ctx.violation("file-temporal-errors-follow-effective-times", {"rows": rows}, {"impl": impl, "expected": ref})
 
 
+# ---- per-group structural checks (DefValidator.validate_onset_offset) ----
+
+def def_ok(ext):
+    name, _, ph = ext.partition("/")
+    tv = dict(DEF_TABLE).get(name.casefold())
+    return tv is not None and tv == bool(ph)
+
+
+def render_child(ch, uid):
+    if ch[0] == "anchor":
+        return KIND_TAG[ch[1]]
+    if ch[0] == "def":
+        return "Def/" + ch[1]
+    if ch[0] == "delay":
+        return "Delay/1 s"
+    if ch[0] == "tag":
+        return f"Label/t{uid}"
+    if not ch[1]:
+        return f"(Label/u{uid})"
+    parts = []
+    for e in ch[1]:
+        name, _, ph = e.partition("/")
+        parts += ["Def-expand/" + e, DEF_CONTENT.get(name.casefold(), "(Red)").format(v=ph or "1")]
+    return "(" + ", ".join(parts) + ")"
+
+
+def render_groups(groups):
+    uid, out = 0, []
+    for g in groups:
+        cs = []
+        for ch in g:
+            uid += 1
+            cs.append(render_child(ch, uid))
+        out.append("(" + ", ".join(cs) + ")")
+    return ", ".join(out)
+
+
+def gen_group(rng):
+    g = []
+    r = rng.random()
+    if r < 0.9:
+        g.append(["anchor", rng.choice(KINDS)])
+        if r < 0.05:
+            g.append(["anchor", rng.choice(KINDS)])
+    for _ in range(rng.choice([0, 1, 1, 1, 1, 2, 2, 3])):
+        e = rng.choice(DEF_EXTS)
+        if rng.random() < 0.6:
+            g.append(["def", e])
+        else:
+            g.append(["group", [e] if rng.random() < 0.9 else [e, rng.choice(DEF_EXTS)]])
+    for _ in range(rng.choice([0, 0, 1, 1, 1, 2, 3])):
+        g.append(["group", []])
+    for _ in range(rng.choice([0, 0, 0, 1, 2])):
+        g.append(["tag"])
+    if rng.random() < 0.25:
+        g.append(["delay"])
+    rng.shuffle(g)
+    return g
+
+
+def ref_shape(g):
+    """the property's reading: exactly one Def/Def-expand, at most one inner group, none for Offset, known def"""
+    anchors = [i for i, ch in enumerate(g) if ch[0] == "anchor"]
+    if not anchors:
+        return []
+    carriers = [(e, i) for i, ch in enumerate(g) for e in ([ch[1]] if ch[0] == "def" else ch[1] if ch[0] == "group" else [])]
+    if not carriers:
+        return ["ONSET_NO_DEF_TAG_FOUND"]
+    if len(carriers) > 1:
+        return ["ONSET_TOO_MANY_DEFS"]
+    ext, di = carriers[0]
+    others = [ch for i, ch in enumerate(g) if i not in (di, anchors[0]) and ch[0] != "delay"]
+    if len(others) > (0 if g[anchors[0]][1] == "offset" else 1):
+        return ["ONSET_WRONG_NUMBER_GROUPS"]
+    out = ["ONSET_TAG_OUTSIDE_OF_GROUP"] if others and others[0][0] != "group" else []
+    name, _, ph = ext.partition("/")
+    tv = dict(DEF_TABLE).get(name.casefold())
+    if tv is None:
+        out.append("ONSET_DEF_UNMATCHED")
+    elif tv != bool(ph):
+        out.append("ONSET_PLACEHOLDER_WRONG")
+    return out
+
+
+def check_shape(ctx, groups, model, schema, dd):
+    from hed import HedString
+    from hed.validator.def_validator import DefValidator
+    text = render_groups(groups)
+    case = {"groups": groups, "text": text}
+    try:
+        direct = [i["_kind"] for i in DefValidator(dd, schema).validate_onset_offset(HedString(text, schema, dd))]
+        issues = HedString(text, schema, dd).validate(dd)
+    except Exception as e:
+        ctx.violation("temporal-group-check-raised", case, f"{type(e).__name__}: {e}")
+        return
+    ctx.case(("s", text), nontrivial=bool(model["kinds"]), sample=case if model["kinds"] and ctx.rng.random() < 0.02 else None)
+    for k in model["kinds"]:
+        ctx.count("shape-" + k)
+    if direct != model["kinds"]:
+        ctx.disagree("Temporal.validateOnsetOffset = DefValidator.validate_onset_offset", case, model["kinds"], direct)
+    want = [k for g in groups for k in ref_shape(g)]
+    if direct != want:
+        ctx.violation("temporal-group-shape-kind", case, {"impl": direct, "expected": want})
+    # through HedString.validate: a Def problem stops validation earlier (DEF_INVALID family); otherwise the
+    # structural issues appear, all under code TEMPORAL_TAG_ERROR
+    via = [i["_kind"] for i in issues if i.get("_kind") in SHAPE_KINDS]
+    if any(i["code"] != "TEMPORAL_TAG_ERROR" for i in issues if i.get("_kind") in SHAPE_KINDS):
+        ctx.violation("temporal-group-issue-code", case, [(i["code"], i["_kind"]) for i in issues])
+    defs_all = [e for g in groups for ch in g for e in ([ch[1]] if ch[0] == "def" else ch[1] if ch[0] == "group" else [])]
+    multi = any(ch[0] == "group" and len(ch[1]) > 1 for g in groups for ch in g)   # DEF_EXPAND_INVALID earlier
+    if all(def_ok(e) for e in defs_all) and not multi:
+        ctx.count("shape-via-validate-compared")
+        if via != model["kinds"]:
+            ctx.disagree("Temporal.validateOnsetOffset = ONSET_* kinds of HedString.validate", case, model["kinds"], via)
+    elif not any(i["severity"] == 1 for i in issues):
+        ctx.violation("bad-def-in-temporal-group-accepted", case, [(i["code"], i.get("_kind")) for i in issues])
+    if want and not any(i["severity"] == 1 for i in issues):
+        ctx.violation("malformed-temporal-group-accepted", case, [(i["code"], i.get("_kind")) for i in issues])
+
+
+SHAPE_CORPUS = [
+    [[["def", "A"], ["def", "B"], ["anchor", "onset"]]],                         # two Defs
+    [[["anchor", "onset"], ["def", "A"], ["group", []], ["group", []]]],         # two inner groups
+    [[["def", "A"], ["anchor", "offset"], ["group", []]]],                       # Offset with inner group
+    [[["anchor", "onset"], ["group", []]]],                                      # no Def
+    [[["anchor", "onset"], ["def", "A"], ["tag"]]],
+    [[["anchor", "onset"], ["def", "Zed"]]],
+    [[["anchor", "onset"], ["def", "C"]]],
+    [[["anchor", "onset"], ["group", ["A"]], ["group", []]]],
+    [[["anchor", "onset"], ["group", ["A"]], ["def", "B"]]],
+    [[["anchor", "onset"], ["def", "A"], ["delay"], ["group", []]]],
+    [[["anchor", "onset"], ["anchor", "inset"], ["def", "A"]]],
+    [[["anchor", "inset"], ["def", "C/1"], ["tag"], ["tag"]]],
+    [[["anchor", "onset"], ["def", "A"]], [["anchor", "offset"], ["def", "a"], ["group", []]]],
+    [[["def", "Zed"], ["tag"], ["tag"]]],
+]
+
+
+def run_shapes(ctx, schema, dd):
+    n = 500 if ctx.quick() else 8000
+    cases = list(SHAPE_CORPUS) + [[gen_group(ctx.rng) for _ in range(ctx.rng.choice([1, 1, 1, 2, 3]))] for _ in range(n)]
+    ans = ctx.model.batch([{"op": "c10.shape", "groups": g, "defs": DEF_TABLE} for g in cases])
+    for g, a in zip(cases, ans):
+        check_shape(ctx, g, a, schema, dd)
+    ctx.check_time()
+
+
 def run(ctx):
     from hed import load_schema_version
     from hed.models import DefinitionDict
@@ -230,7 +400,9 @@ def run(ctx):
     schema = load_schema_version("8.3.0")
     dd = DefinitionDict(DEFS, schema)
     ctx.extra["rule"] = ("histories over {Onset,Offset,Inset} x {A,a,B,C/1,C/2,c/1}: exhaustive for short ones, random longer; "
-                         "event frames with equal-onset rows and Delay shifts on a 1/8 s grid; non-trivial = at least 2 markers")
+                         "event frames with equal-onset rows and Delay shifts on a 1/8 s grid; non-trivial = at least 2 markers; "
+                         "temporal groups with 0-3 Def/Def-expand, 0-3 inner groups, extra tags, Delay, second anchors, unknown/valued defs "
+                         "(non-trivial = the group is malformed)")
     # corpus
     corpus = [[[("onset", "A")], [("onset", "a"), ("offset", "A")], [("offset", "A"), ("inset", "B")]],
               [[("offset", "C/1")], [("onset", "C/1")], [("inset", "c/1"), ("offset", "C/2")]]]
@@ -270,6 +442,7 @@ def run(ctx):
     for f, a in zip(files, ans):
         check_file(ctx, f, a, schema, dd)
         ctx.check_time()
+    run_shapes(ctx, schema, dd)
 
 
 def replay(ctx, rec):
@@ -282,7 +455,10 @@ def replay(ctx, rec):
     if not case:
         print("nothing to replay (obligation-only record):", rec.get("broken_obligations"))
         return
-    if "history" in case:
+    if "groups" in case:
+        a = ctx.model.batch([{"op": "c10.shape", "groups": case["groups"], "defs": DEF_TABLE}])[0]
+        check_shape(ctx, case["groups"], a, schema, dd)
+    elif "history" in case:
         h = [[tuple(m) for m in ms] for ms in case["history"]]
         a = ctx.model.batch([{"op": "c10.run", "history": case["history"]}])[0]
         check_history(ctx, h, a["errors"], schema, dd)
